@@ -5,6 +5,7 @@ from ..framework import And, Or, Not, Implies, If, MachineryError, model_val
 from ..executor import IntV, BoolV, Agg, Opaque, Ref, NotEncoded, UNIT
 from .common import KINDS, cedar_value, classify_eval, KIND_NATIVE
 from .evalarm import Harness, Sub, operand_text
+from ..models import ok, err, some, none
 
 PV = 'ast::partial_value::PartialValue'
 EK = 'ast::expr::ExprKind'
@@ -47,7 +48,7 @@ def native_outcome(ctx, expr, entities=None, partial=False):
     if 'err' in a:
         if a['err'] == 'TypeError':
             tag, vals = classify_eval({'err': 'TypeError', 'msg': a.get('msg', '')})
-            return ('type_error', str(vals[0]).split(' ')[0] if not str(vals[0]).startswith('one of') else 'advice', vals[1])
+            return ('type_error', str(vals[0]).lstrip('(').split(' ')[0] if not str(vals[0]).startswith('one of') else 'advice', vals[1])
         return ('error', a['err'])
     raise MachineryError(f'peval answer {a}')
 
@@ -103,7 +104,16 @@ def run_arm(ctx, A):
     if A.setup:
         A.setup(h)
     node = A.build(h)
-    ex.stub(r'(^|::)Expr::(<.*>::)?expr_kind$', lambda ex, st, c, A_: ex.new_cell(st, node, 'exprkind'), 'Expr::expr_kind of the node under evaluation: the pinned variant with opaque sub-expressions')
+    def expr_kind(ex, st, c, A_):
+        e = h._resolve(st, A_[0])
+        if getattr(e, 'what', None) == 'this_expr' and node is not None:
+            return ex.new_cell(st, node, 'exprkind')
+        # any other expression (a residual returned by a sub-evaluation): an arbitrary node kind
+        key = ('exprkind', getattr(e, 'id', None))
+        if key not in ex.memo:
+            ex.memo[key] = Opaque('ast::expr::ExprKind', f'kind of {getattr(e, "what", "?")}')
+        return ex.new_cell(st, ex.memo[key], 'exprkind')
+    ex.stub(r'(^|::)Expr::(<.*>::)?expr_kind$', expr_kind, 'Expr::expr_kind: the pinned variant for the node under evaluation, an arbitrary kind for residuals')
     heap = {'EV': Opaque('evaluator::Evaluator', 'eval'), 'E': Opaque('ast::expr::Expr', 'this_expr'), 'S': Opaque('SlotEnv', 'slots')}
     args = A.args(h, heap) if A.args else [Ref(0, ('local', 'EV')), Ref(0, ('local', 'E')), Ref(0, ('local', 'S'))]
     outs = ex.run(f, args, heap=heap)
@@ -131,11 +141,11 @@ def run_arm(ctx, A):
         if exp[0] == 'residual':
             if got[0] != 'residual':
                 return ctx.violation(A.name, A.role or A.name, f'{why}; `{text}`: real evaluator returns {got}, a residual is prescribed', {'op': 'peval', 'expr': text, 'entities': entities, 'partial': partial})
-            probs = residual_sound(ctx, text, got[1], unknowns, entities)
+            probs = [] if partial else residual_sound(ctx, text, got[1], unknowns, entities)
             if probs:
                 return ctx.violation(A.name, A.role or A.name, f'{why}; `{text}`: residual unsound: {probs[0]}', {'op': 'peval', 'expr': text, 'problems': probs[:4]})
             return ctx.mismatch(A.name, f'{why}; but the real evaluator returns the sound residual `{got[1]}` for `{text}`')
-        want = expected_native(exp, c)
+        want = (A.native_expect(exp, c) if getattr(A, 'native_expect', None) else None) or expected_native(exp, c)
         g = got[:len(want)]
         if tuple(g) != tuple(want):
             return ctx.violation(A.name, A.role or A.name, f'{why}; `{text}`: real evaluator returns {got}, the language semantics prescribes {want}',
@@ -148,6 +158,8 @@ def run_arm(ctx, A):
         d = h.describe(o)
         ev = h.evaluated(o)
         claims = []
+        if getattr(A, 'log_check', None) is not None:
+            claims.append(z3.BoolVal(bool(A.log_check(h, o))))
         for cond, exp, evald in cases:
             claims.append(z3.Implies(zb(cond), z3.And(same(d, exp), z3.BoolVal(list(ev) == list(evald)))))
         ctx.decide(f'{A.name}/path{i}: {d[0]}', pre + o.pc + [z3.Not(z3.And(claims))], ex=ex,
@@ -182,11 +194,11 @@ def run_arm(ctx, A):
             n += 1
             if exp[0] == 'residual':
                 unknowns = [x for x in A.subs if c.get(f'{x}_out') == 1]
-                if got[0] != 'residual' or residual_sound(ctx, text, got[1], unknowns, entities):
+                if got[0] != 'residual' or (not partial and residual_sound(ctx, text, got[1], unknowns, entities)):
                     ctx.mismatch(A.name, f'case table vs real evaluator on `{text}`: {got}')
                     break
                 continue
-            want = expected_native(exp, c)
+            want = (A.native_expect(exp, c) if getattr(A, 'native_expect', None) else None) or expected_native(exp, c)
             if tuple(got[:len(want)]) != tuple(want):
                 ctx.mismatch(A.name, f'case table vs real evaluator on `{text}`: table says {want}, evaluator says {got}')
                 break
@@ -278,3 +290,514 @@ def families(ctx):
         A = mk()
         out.append((A.name, (lambda A=A: run_arm(ctx, A))))
     return out
+
+
+# ---------------------------------------------------------------------------------------------- unary / binary application
+
+I64_MIN, I64_MAX = -(1 << 63), (1 << 63) - 1
+BIN_SYM = {'Eq': '==', 'Less': '<', 'LessEq': '<=', 'Add': '+', 'Sub': '-', 'Mul': '*'}
+
+
+def ref_value(c, n):
+    """python value of a concrete operand (as concretised by cedar_value)"""
+    k = KINDS[c[f'{n}_kind']]
+    return (k, c[f'{n}_b'] if k == 'bool' else (c[f'{n}_n'] if k == 'long' else None))
+
+
+def ref_binop(op, c, a='arg1', b='arg2'):
+    """reference semantics of the scalar binary operators on concretised operands -> expected native outcome"""
+    (ka, va), (kb, vb) = ref_value(c, a), ref_value(c, b)
+    if op == 'Eq':
+        return ('bool', ka == kb and va == vb)
+    if op in ('Less', 'LessEq'):
+        if ka == 'long' and kb == 'long':
+            return ('bool', va < vb if op == 'Less' else va <= vb)
+        if ka == 'long':
+            return ('type_error', 'long', c[f'{b}_kind'])
+        if kb == 'long':
+            return ('type_error', 'long', c[f'{a}_kind'])
+        return ('type_error', 'advice', c[f'{a}_kind'])
+    if ka != 'long':
+        return ('type_error', 'long', c[f'{a}_kind'])
+    if kb != 'long':
+        return ('type_error', 'long', c[f'{b}_kind'])
+    r = {'Add': va + vb, 'Sub': va - vb, 'Mul': va * vb}[op]
+    return ('long', r) if I64_MIN <= r <= I64_MAX else ('error', 'IntegerOverflow')
+
+
+def arm_binary_scalar(opname):
+    """BinaryApp with op in {==, <, <=, +, -, *}: operands evaluated left to right, the first error wins, two values go to
+    binary_relation / binary_arith IN THIS ORDER with THIS operator, residual operands rebuild the application"""
+    callee = 'binary_relation' if opname in ('Eq', 'Less', 'LessEq') else 'binary_arith'
+    st_ = {}
+
+    def setup(h):
+        ex = h.ex
+        RES = z3.Int('kernel_result')         # 0: Ok(value), 1: Err
+        ex.invariants.append(z3.And(RES >= 0, RES <= 1))
+        h.extra_ins = {'kernel_result': RES}
+        rv, re_ = Opaque('ast::value::Value', 'kernel value'), Opaque('EvaluationError', 'kernel error')
+        h.by_val[rv.id] = type('X', (), {'name': 'kernel'})()
+        h.by_err[re_.id] = type('X', (), {'name': 'kernel'})()
+        ex.stub(r'(^|::)' + callee + '$', lambda ex, st, c, A: [([RES == 0], ok(rv)), ([RES == 1], err(re_))], f'{callee}: arbitrary result, logged')
+        for sc in ('short_circuit_value_and_residual', 'short_circuit_residual_and_value', 'short_circuit_two_typed_residuals'):
+            ex.stub(r'::' + sc + '$', lambda ex, st, c, A: none(), f'{sc}: returns None (its own obligations are separate)')
+        st_['h'] = h
+
+    def build(h):
+        return Agg('variant', EK, 'BinaryApp', [Agg('variant', 'ast::ops::BinaryOp', opname, []), h.subs['arg1'].arc, h.subs['arg2'].arc], ('op', 'arg1', 'arg2'))
+
+    def cases(ins):
+        o1, o2 = ins['arg1_out'], ins['arg2_out']
+        kr = ins['kernel_result']
+        both = ['arg1', 'arg2']
+        return [
+            (o1 == 2, ('err_of', 'arg1'), ['arg1']),
+            (And(o1 != 2, o2 == 2), ('err_of', 'arg2'), both),
+            (And(o1 == 0, o2 == 0, kr == 0), ('value_of', 'kernel'), both),
+            (And(o1 == 0, o2 == 0, kr == 1), ('err_of', 'kernel'), both),
+            (And(o1 == 0, o2 == 1), ('residual', ('binary_app', ('enum', opname), ('from_value', ('val', 'arg1')), ('res', 'arg2'))), both),
+            (And(o1 == 1, o2 == 0), ('residual', ('binary_app', ('enum', opname), ('res', 'arg1'), ('from_value', ('val', 'arg2')))), both),
+            (And(o1 == 1, o2 == 1), ('residual', ('binary_app', ('enum', opname), ('res', 'arg1'), ('res', 'arg2'))), both),
+        ]
+
+    def text(c):
+        return f'({operand_text(c, "arg1")}) {BIN_SYM[opname]} ({operand_text(c, "arg2")})', None, False
+    A = Arm(f'evaluator arm BinaryApp[{opname}]', pii, ['arg1', 'arg2'], build, cases, text, setup=setup, role='evaluator.rs: partial_interpret_internal BinaryApp arm (scalar operators)',
+            extra_inputs=[('kernel_result', 'u8', lambda r: 0)])
+
+    def log_check(h, o):
+        calls = [c for c in o.log if c.tag.startswith(callee)]
+        if not calls:
+            return True
+        if len(calls) != 1:
+            return False
+        a = calls[0].args
+        v1, v2 = h._resolve(o.st, a[1]), h._resolve(o.st, a[2])
+        return isinstance(a[0], Agg) and a[0].variant == opname and getattr(v1, 'id', None) == h.subs['arg1'].val.v.id and getattr(v2, 'id', None) == h.subs['arg2'].val.v.id
+    A.log_check = log_check
+    A.native_expect = lambda exp, c: ref_binop(opname, c) if exp[0] in ('value_of', 'err_of') and exp[1] == 'kernel' else None
+    return A
+
+
+def arm_unary():
+    def setup(h):
+        ex = h.ex
+        RES = z3.Int('kernel_result')
+        ex.invariants.append(z3.And(RES >= 0, RES <= 1))
+        h.extra_ins = {'kernel_result': RES}
+        rv, re_ = Opaque('ast::value::Value', 'kernel value'), Opaque('EvaluationError', 'kernel error')
+        h.by_val[rv.id] = type('X', (), {'name': 'kernel'})()
+        h.by_err[re_.id] = type('X', (), {'name': 'kernel'})()
+        h.uop = Opaque('ast::ops::UnaryOp', 'op')
+        ex.stub(r'(^|::)unary_app$', lambda ex, st, c, A: [([RES == 0], ok(rv)), ([RES == 1], err(re_))], 'unary_app: arbitrary result, logged')
+
+    def build(h):
+        return Agg('variant', EK, 'UnaryApp', [h.uop, h.subs['arg'].arc], ('op', 'arg'))
+
+    def cases(ins):
+        o, kr = ins['arg_out'], ins['kernel_result']
+        return [(o == 2, ('err_of', 'arg'), ['arg']), (And(o == 0, kr == 0), ('value_of', 'kernel'), ['arg']), (And(o == 0, kr == 1), ('err_of', 'kernel'), ['arg']),
+                (o == 1, ('residual', ('unary_app', ('opaque', 'op'), ('res', 'arg'))), ['arg'])]
+
+    def text(c):
+        return f'!({operand_text(c, "arg")})', None, False
+    A = Arm('evaluator arm UnaryApp', pii, ['arg'], build, cases, text, setup=setup, role='evaluator.rs: partial_interpret_internal UnaryApp arm', extra_inputs=[('kernel_result', 'u8', lambda r: 0)])
+
+    def log_check(h, o):
+        calls = [c for c in o.log if c.tag.startswith('unary_app')]
+        if not calls:
+            return True
+        a = calls[0].args
+        return len(calls) == 1 and getattr(a[0], 'id', None) == h.uop.id and getattr(h._resolve(o.st, a[1]), 'id', None) == h.subs['arg'].val.v.id
+
+    def nat(exp, c):
+        if exp[0] in ('value_of', 'err_of') and exp[1] == 'kernel':
+            k, v = ref_value(c, 'arg')
+            return ('bool', not v) if k == 'bool' else ('type_error', 'bool', c['arg_kind'])
+        return None
+    A.log_check, A.native_expect = log_check, nat
+    return A
+
+
+ARMS += [arm_unary] + [(lambda o=o: arm_binary_scalar(o)) for o in ('Eq', 'Less', 'LessEq', 'Add', 'Sub', 'Mul')]
+
+
+# ---------------------------------------------------------------------------------------------- set operators
+
+def arm_set_op(opname):
+    """contains / containsAll / containsAny: operands must be sets (type error names the first non-set, left first); the answer is
+    exactly what Set::{contains, is_subset, is_disjoint} says for the operands IN THE RIGHT ROLES"""
+    def setup(h):
+        ex = h.ex
+        B = z3.Bool('set_answer')
+        h.extra_ins = {'set_answer': B}
+        h.set_of = {}
+        for n, s in h.subs.items():
+            so = ex.opaque_field(s.val.vk, 'Set', 0, 'ast::value::Set')
+            h.set_of[so.id] = n
+        for sc in ('short_circuit_value_and_residual', 'short_circuit_residual_and_value', 'short_circuit_two_typed_residuals'):
+            ex.stub(r'::' + sc + '$', lambda ex, st, c, A: none(), f'{sc}: returns None')
+        ex.stub(r'(^|::)Set::(contains|is_subset|is_disjoint)$', lambda ex, st, c, A: BoolV(B), 'Set::{contains,is_subset,is_disjoint}: free boolean, logged (the set algorithms themselves are separate obligations)')
+
+    def build(h):
+        return Agg('variant', EK, 'BinaryApp', [Agg('variant', 'ast::ops::BinaryOp', opname, []), h.subs['arg1'].arc, h.subs['arg2'].arc], ('op', 'arg1', 'arg2'))
+
+    def cases(ins):
+        o1, o2 = ins['arg1_out'], ins['arg2_out']
+        s1, s2 = ins['arg1_kind'] == 4, ins['arg2_kind'] == 4
+        B = ins['set_answer']
+        both = ['arg1', 'arg2']
+        vv = And(o1 == 0, o2 == 0)
+        out = [(o1 == 2, ('err_of', 'arg1'), ['arg1']), (And(o1 != 2, o2 == 2), ('err_of', 'arg2'), both),
+               (And(o1 == 0, o2 == 1), ('residual', ('binary_app', ('enum', opname), ('from_value', ('val', 'arg1')), ('res', 'arg2'))), both),
+               (And(o1 == 1, o2 == 0), ('residual', ('binary_app', ('enum', opname), ('res', 'arg1'), ('from_value', ('val', 'arg2')))), both),
+               (And(o1 == 1, o2 == 1), ('residual', ('binary_app', ('enum', opname), ('res', 'arg1'), ('res', 'arg2'))), both),
+               (And(vv, Not(s1)), ('type_error', 'set', 'arg1'), both)]
+        if opname == 'Contains':
+            out.append((And(vv, s1), ('bool', B), both))
+        else:
+            out.append((And(vv, s1, Not(s2)), ('type_error', 'set', 'arg2'), both))
+            out.append((And(vv, s1, s2), ('bool', B if opname == 'ContainsAll' else Not(B)), both))
+        return out
+
+    def log_check(h, o):
+        calls = [c for c in o.log if c.tag.startswith('Set::')]
+        if not calls:
+            return True
+        if len(calls) != 1:
+            return False
+        c = calls[0]
+        fn = c.callee.rsplit('::', 1)[1]
+        a0 = h._resolve(o.st, c.args[0])
+        a1 = h._resolve(o.st, c.args[1])
+        who0 = h.set_of.get(getattr(a0, 'id', None))
+        if opname == 'Contains':
+            return fn == 'contains' and who0 == 'arg1' and getattr(a1, 'id', None) == h.subs['arg2'].val.v.id
+        who1 = h.set_of.get(getattr(a1, 'id', None))
+        if opname == 'ContainsAll':
+            return fn == 'is_subset' and (who0, who1) == ('arg2', 'arg1')        # arg1.containsAll(arg2)  <=>  arg2 is a subset of arg1
+        return fn == 'is_disjoint' and {who0, who1} == {'arg1', 'arg2'}
+
+    def text(c):
+        def opnd(n):
+            return operand_text(c, n)
+        a, b = opnd('arg1'), opnd('arg2')
+        ans = c['set_answer']
+        if c['arg1_out'] == 0 and c['arg1_kind'] == 4:
+            if opname == 'Contains':
+                a = f'[{b}]' if (ans and c['arg2_out'] == 0) else '[]'
+            elif c['arg2_out'] == 0 and c['arg2_kind'] == 4:
+                if opname == 'ContainsAll':
+                    a, b = ('[1, 2]', '[1]') if ans else ('[1]', '[1, 2]')
+                else:
+                    a, b = ('[1]', '[2]') if ans else ('[1, 3]', '[3]')
+        meth = {'Contains': 'contains', 'ContainsAll': 'containsAll', 'ContainsAny': 'containsAny'}[opname]
+        return f'({a}).{meth}({b})', None, False
+    A = Arm(f'evaluator arm BinaryApp[{opname}]', pii, ['arg1', 'arg2'], build, cases, text, setup=setup, role='evaluator.rs: partial_interpret_internal BinaryApp arm (set operators)',
+            extra_inputs=[('set_answer', 'bool', lambda r: r.random() < 0.5)])
+    A.log_check = log_check
+    return A
+
+
+# ---------------------------------------------------------------------------------------------- like / is
+
+def arm_like():
+    def setup(h):
+        B = z3.Bool('pattern_matches')
+        h.extra_ins = {'pattern_matches': B}
+        h.pattern = Opaque('ast::pattern::Pattern', 'pattern')
+        h.ex.stub(r'Pattern::wildcard_match$', lambda ex, st, c, A: BoolV(B), 'Pattern::wildcard_match: free boolean, logged (the matcher itself is a separate obligation)')
+
+    def build(h):
+        return Agg('variant', EK, 'Like', [h.subs['e'].arc, h.pattern], ('expr', 'pattern'))
+
+    def cases(ins):
+        o = ins['e_out']
+        is_str = ins['e_kind'] == 2
+        return [(o == 2, ('err_of', 'e'), ['e']), (And(o == 0, Not(is_str)), ('type_error', 'string', 'e'), ['e']), (And(o == 0, is_str), ('bool', ins['pattern_matches']), ['e']),
+                (o == 1, ('residual', ('like', ('res', 'e'), ('opaque', 'pattern'))), ['e'])]
+
+    def text(c):
+        pat = 's' if c['pattern_matches'] else 'zz*'
+        return f'({operand_text(c, "e")}) like "{pat}"', None, False
+
+    def log_check(h, o):
+        calls = [c for c in o.log if c.tag.startswith('Pattern::wildcard_match')]
+        return not calls or (len(calls) == 1 and getattr(h._resolve(o.st, calls[0].args[0]), 'id', None) == h.pattern.id)
+    A = Arm('evaluator arm Like', pii, ['e'], build, cases, text, setup=setup, role='evaluator.rs: partial_interpret_internal Like arm', extra_inputs=[('pattern_matches', 'bool', lambda r: r.random() < 0.5)])
+    A.log_check = log_check
+    return A
+
+
+def arm_is():
+    def setup(h):
+        B = z3.Bool('same_entity_type')
+        h.extra_ins = {'same_entity_type': B}
+        h.ety = Opaque('ast::entity::EntityType', 'tested type')
+        h.ex.stub(r'EntityUID::entity_type$', lambda ex, st, c, A: ex.new_cell(st, Opaque('ast::entity::EntityType', 'type of the operand'), 'ety'), 'EntityUID::entity_type (opaque)')
+        h.ex.stub(r'<&?.*EntityType as PartialEq(<.*>)?>::eq$', lambda ex, st, c, A: BoolV(B), 'EntityType equality: free boolean')
+        # the typed-unknown shortcut of the residual case is a C13 obligation (short_circuit.py); here a residual is any non-unknown expression
+
+    def build(h):
+        return Agg('variant', EK, 'Is', [h.subs['e'].arc, h.ety], ('expr', 'entity_type'))
+
+    def cases(ins):
+        o = ins['e_out']
+        is_ent = ins['e_kind'] == 3
+        return [(o == 2, ('err_of', 'e'), ['e']), (And(o == 0, Not(is_ent)), ('type_error', 'entity', 'e'), ['e']), (And(o == 0, is_ent), ('bool', ins['same_entity_type']), ['e'])]
+
+    def text(c):
+        t = 'User' if c['same_entity_type'] else 'Photo'
+        return f'({operand_text(c, "e")}) is {t}', None, False
+    return Arm('evaluator arm Is', pii, ['e'], build, cases, text, setup=setup, role='evaluator.rs: partial_interpret_internal Is arm', pre=lambda ins: ins['e_out'] != 1,
+               extra_inputs=[('same_entity_type', 'bool', lambda r: r.random() < 0.5)])
+
+
+ARMS += [(lambda o=o: arm_set_op(o)) for o in ('Contains', 'ContainsAll', 'ContainsAny')] + [arm_like, arm_is]
+
+
+# ---------------------------------------------------------------------------------------------- has / . / in / tags
+
+ERR_CTORS = r'EvaluationError::(entity_does_not_exist|entity_attr_does_not_exist|record_attr_does_not_exist|entity_tag_does_not_exist|unlinked_slot)(::<.*>)?$'
+ERR_CLASS = {'entity_does_not_exist': 'EntityDoesNotExist', 'entity_attr_does_not_exist': 'EntityAttrDoesNotExist', 'record_attr_does_not_exist': 'RecordAttrDoesNotExist',
+             'entity_tag_does_not_exist': 'EntityAttrDoesNotExist', 'unlinked_slot': 'UnlinkedSlot'}
+STORE_WITH = [{'uid': {'type': 'User', 'id': 'alice'}, 'attrs': {'a': 1}, 'parents': [{'type': 'Group', 'id': 'g'}], 'tags': {'t': 1}}, {'uid': {'type': 'Group', 'id': 'g'}, 'attrs': {}, 'parents': []}]
+STORE_BARE = [{'uid': {'type': 'User', 'id': 'alice'}, 'attrs': {}, 'parents': [], 'tags': {}}]
+
+
+def store_setup(h):
+    """the entity store as an environment: Entities::entity(uid) is NoSuchEntity | Residual(r) | Data(e); lookups in the entity are free booleans"""
+    import re as _re
+    ex = h.ex
+    ex.havoc_unknown = True       # only the residual-operand paths (excluded by the precondition of these arms) meet unknown callees
+    ex.stub(r'Expr::(<.*>::)?is_projectable$', lambda ex, st, c, A: BoolV(z3.Bool('projectable')), 'Expr::is_projectable: free boolean (its own table is a C13 obligation)')
+    D = z3.Int('deref')          # 0 no such entity, 1 residual (partial store), 2 data
+    ex.invariants.append(z3.And(D >= 0, D <= 2))
+    h.extra_ins = dict(getattr(h, 'extra_ins', {}), deref=D)
+    h.deref_res = Opaque('ast::expr::Expr', 'res_store')
+    h.by_res[h.deref_res.id] = type('X', (), {'name': 'store'})()
+    h.entity = Opaque('ast::entity::Entity', 'the entity')
+    DT = 'entities::Dereference'
+    ex.stub(r'Entities::entity$', lambda ex, st, c, A: [([D == 0], Agg('variant', DT, 'NoSuchEntity', [])), ([D == 1], Agg('variant', DT, 'Residual', [h.deref_res])),
+                                                        ([D == 2], Agg('variant', DT, 'Data', [ex.new_cell(st, h.entity, 'entity')]))], 'Entities::entity: NoSuchEntity | Residual(r) | Data(e), logged')
+    ex.stub(ERR_CTORS, lambda ex, st, c, A: Agg('variant', 'evaluator::err::EvaluationError', ERR_CLASS[_re.search(ERR_CTORS, c).group(1)], [Opaque('error payload', 'payload')]), 'evaluation error constructors (class only)')
+    for fn in ('keys', 'len', 'attrs_len', 'tags_len', 'tag_keys'):
+        ex.stub(r'(Entity|BTreeMap<.*>)::(<.*>::)?' + fn + '$', lambda ex, st, c, A: Opaque('usize or iterator', 'error detail'), 'details for error messages (opaque)')
+
+
+def describe_error(h, d):
+    return d
+
+
+def arm_has_attr():
+    def setup(h):
+        ex = h.ex
+        store_setup(h)
+        P_, K_ = z3.Bool('attr_present'), z3.Int('residual_kind')
+        h.extra_ins.update(attr_present=P_)
+        h.attr = Opaque('smol_str::SmolStr', 'attr')
+        ex.stub(r'BTreeMap::<.*>::get::<', lambda ex, st, c, A: [([P_], some(ex.new_cell(st, Opaque('ast::value::Value', 'stored value'), 'stored'))), ([z3.Not(P_)], none())], 'BTreeMap::get(attr): present or not (free boolean)')
+        ex.stub(r'Entity::get$', lambda ex, st, c, A: [([P_], some(ex.new_cell(st, Opaque('ast::partial_value::PartialValue', 'stored value'), 'stored'))), ([z3.Not(P_)], none())], 'Entity::get(attr): present or not (free boolean)')
+
+    def build(h):
+        return Agg('variant', EK, 'HasAttr', [h.subs['e'].arc, h.attr], ('expr', 'attr'))
+
+    def cases(ins):
+        o, k, d, p = ins['e_out'], ins['e_kind'], ins['deref'], ins['attr_present']
+        v = o == 0
+        return [(o == 2, ('err_of', 'e'), ['e']),
+                (And(v, k == 5), ('bool', p), ['e']),
+                (And(v, k == 3, d == 0), ('bool', False), ['e']),                       # `has` on an absent entity is false, not an error
+                (And(v, k == 3, d == 1), ('residual', ('has_attr', ('res', 'store'), ('opaque', 'attr'))), ['e']),
+                (And(v, k == 3, d == 2), ('bool', p), ['e']),
+                (And(v, k != 5, k != 3), ('type_error', 'advice', 'e'), ['e'])]
+
+    def text(c):
+        store, partial = None, False
+        if c['e_out'] == 0 and c['e_kind'] == 3:
+            store, partial = {0: (None, False), 1: ([], True), 2: (STORE_WITH if c['attr_present'] else STORE_BARE, False)}[c['deref']]
+        e = operand_text(c, 'e')
+        if c['e_out'] == 0 and c['e_kind'] == 5:
+            e = '{a: 1}' if c['attr_present'] else '{b: 1}'
+        return f'({e}) has a', store, partial
+    return Arm('evaluator arm HasAttr', pii, ['e'], build, cases, text, setup=setup, role='evaluator.rs: partial_interpret_internal HasAttr arm', pre=lambda ins: ins['e_out'] != 1,
+               extra_inputs=[('deref', 'u8', lambda r: r.choice([0, 1, 2])), ('attr_present', 'bool', lambda r: r.random() < 0.5)])
+
+
+def arm_get_attr():
+    def setup(h):
+        ex = h.ex
+        store_setup(h)
+        P_, SV = z3.Bool('attr_present'), z3.Bool('stored_is_value')
+        h.extra_ins.update(attr_present=P_)
+        h.attr = Opaque('smol_str::SmolStr', 'attr')
+        stored = Opaque('ast::value::Value', 'stored value')
+        h.by_val[stored.id] = type('X', (), {'name': 'stored'})()
+        ex.stub(r'BTreeMap::<.*>::get::<', lambda ex, st, c, A: [([P_], some(ex.new_cell(st, stored, 'stored'))), ([z3.Not(P_)], none())], 'BTreeMap::get(attr): present (the stored value) or not')
+        ex.stub(r'Entity::get$', lambda ex, st, c, A: [([P_], some(ex.new_cell(st, Agg('variant', PV, 'Value', [stored]), 'stored'))), ([z3.Not(P_)], none())],
+                'Entity::get(attr): present (a stored concrete value) or not; unknown-valued attributes are outside this obligation')
+        ex.stub(r'Entity::get_tag$', lambda ex, st, c, A: none(), 'Entity::get_tag (only used for an error hint)')
+
+    def cases(ins):
+        o, k, d, p = ins['e_out'], ins['e_kind'], ins['deref'], ins['attr_present']
+        v = o == 0
+        return [(o == 2, ('err_of', 'e'), ['e']),
+                (And(v, k == 5, p), ('value_of', 'stored'), ['e']),
+                (And(v, k == 5, Not(p)), ('error', 'RecordAttrDoesNotExist'), ['e']),
+                (And(v, k == 3, d == 0), ('error', 'EntityDoesNotExist'), ['e']),
+                (And(v, k == 3, d == 1), ('residual', ('get_attr', ('res', 'store'), ('opaque', 'attr'))), ['e']),
+                (And(v, k == 3, d == 2, p), ('value_of', 'stored'), ['e']),
+                (And(v, k == 3, d == 2, Not(p)), ('error', 'EntityAttrDoesNotExist'), ['e']),
+                (And(v, k != 5, k != 3), ('type_error', 'advice', 'e'), ['e'])]
+
+    def text(c):
+        store, partial = None, False
+        if c['e_out'] == 0 and c['e_kind'] == 3:
+            store, partial = {0: (None, False), 1: ([], True), 2: (STORE_WITH if c['attr_present'] else STORE_BARE, False)}[c['deref']]
+        e = operand_text(c, 'e')
+        if c['e_out'] == 0 and c['e_kind'] == 5:
+            e = '{a: 1}' if c['attr_present'] else '{b: 1}'
+        return f'({e}).a', store, partial
+
+    def args(h, heap):
+        heap['X'] = h.subs['e'].expr
+        heap['AT'] = h.attr
+        return [Ref(0, ('local', 'EV')), Ref(0, ('local', 'X')), Ref(0, ('local', 'AT')), Ref(0, ('local', 'S')), none()]
+
+    def nat(exp, c):
+        if exp == ('value_of', 'stored'):
+            return ('long', 1)
+        return None
+    A = Arm('evaluator get_attr', lambda P: P.method('evaluator.rs', 'get_attr', nargs=5), ['e'], lambda h: None, cases, text, setup=setup, args=args, role='evaluator.rs: get_attr',
+            pre=lambda ins: ins['e_out'] != 1, extra_inputs=[('deref', 'u8', lambda r: r.choice([0, 1, 2])), ('attr_present', 'bool', lambda r: r.random() < 0.5)])
+    A.native_expect = nat
+    return A
+
+
+def same_desc(d):
+    return d
+
+
+ARMS += [arm_has_attr, arm_get_attr]
+
+
+def arm_in():
+    def setup(h):
+        ex = h.ex
+        store_setup(h)
+        RES = z3.Int('kernel_result')
+        ex.invariants.append(z3.And(RES >= 0, RES <= 1))
+        h.extra_ins.update(kernel_result=RES)
+        rv, re_ = Agg('variant', PV, 'Value', [Opaque('ast::value::Value', 'kernel value')]), Opaque('EvaluationError', 'kernel error')
+        h.by_val[rv.fields[0].id] = type('X', (), {'name': 'kernel'})()
+        h.by_err[re_.id] = type('X', (), {'name': 'kernel'})()
+        ex.stub(r'::eval_in$', lambda ex, st, c, A: [([RES == 0], ok(rv)), ([RES == 1], err(re_))], 'Evaluator::eval_in: arbitrary result, logged (its own loop is a separate obligation)')
+        ex.stub(r'type_of$', lambda ex, st, c, A: Opaque('ast::types::Type', 'type of arg2'), 'Value::type_of (only selects the advice text of a type error)')
+        for sc in ('short_circuit_value_and_residual', 'short_circuit_residual_and_value', 'short_circuit_two_typed_residuals'):
+            ex.stub(r'::' + sc + '$', lambda ex, st, c, A: none(), f'{sc}: returns None')
+
+    def build(h):
+        return Agg('variant', EK, 'BinaryApp', [Agg('variant', 'ast::ops::BinaryOp', 'In', []), h.subs['arg1'].arc, h.subs['arg2'].arc], ('op', 'arg1', 'arg2'))
+
+    def cases(ins):
+        o1, o2, k1, d, kr = ins['arg1_out'], ins['arg2_out'], ins['arg1_kind'], ins['deref'], ins['kernel_result']
+        both = ['arg1', 'arg2']
+        vv = And(o1 == 0, o2 == 0)
+        return [(o1 == 2, ('err_of', 'arg1'), ['arg1']), (And(o1 != 2, o2 == 2), ('err_of', 'arg2'), both),
+                (And(o1 == 0, o2 == 1), ('residual', ('binary_app', ('enum', 'In'), ('from_value', ('val', 'arg1')), ('res', 'arg2'))), both),
+                (And(o1 == 1, o2 == 0), ('residual', ('binary_app', ('enum', 'In'), ('res', 'arg1'), ('from_value', ('val', 'arg2')))), both),
+                (And(o1 == 1, o2 == 1), ('residual', ('binary_app', ('enum', 'In'), ('res', 'arg1'), ('res', 'arg2'))), both),
+                (And(vv, k1 != 3), ('type_error', 'entity', 'arg1'), both),
+                (And(vv, k1 == 3, d == 1), ('residual', ('binary_app', ('enum', 'In'), ('res', 'store'), ('from_value', ('val', 'arg2')))), both),
+                (And(vv, k1 == 3, d != 1, kr == 0), ('value_of', 'kernel'), both),
+                (And(vv, k1 == 3, d != 1, kr == 1), ('err_of', 'kernel'), both)]
+
+    def log_check(h, o):
+        calls = [c for c in o.log if c.tag.startswith('Evaluator::eval_in')]
+        if not calls:
+            return True
+        if len(calls) != 1:
+            return False
+        a = calls[0].args
+        ent = a[2]
+        derefs = [c for c in o.log if c.tag.startswith('Entities::entity')]
+        if len(derefs) != 1:
+            return False
+        dv = derefs[0].res
+        ok_ent = (ent.variant == 'None' and dv.variant == 'NoSuchEntity') or (ent.variant == 'Some' and dv.variant == 'Data' and getattr(h._resolve(o.st, ent.fields[0]), 'id', None) == h.entity.id)
+        return ok_ent and getattr(h._resolve(o.st, a[3]), 'id', None) == h.subs['arg2'].val.v.id
+
+    def text(c):
+        store, partial = None, False
+        if c['arg1_out'] == 0 and c['arg1_kind'] == 3:
+            store, partial = {0: (None, False), 1: ([], True), 2: (STORE_WITH, False)}[c['deref']]
+        return f'({operand_text(c, "arg1")}) in ({operand_text(c, "arg2")})', store, partial
+
+    def nat(exp, c):
+        if exp[0] in ('value_of', 'err_of') and exp[1] == 'kernel':
+            k2 = c['arg2_kind']
+            if k2 == 3:
+                return ('bool', True)               # alice in alice: reflexive, whether or not alice is in the store
+            if k2 == 4:
+                return ('type_error', 'entity', 1)  # [1]: the element is not an entity
+            return ('type_error', 'advice', k2)
+        return None
+    A = Arm('evaluator arm BinaryApp[In]', pii, ['arg1', 'arg2'], build, cases, text, setup=setup, role='evaluator.rs: partial_interpret_internal BinaryApp arm (in)',
+            extra_inputs=[('deref', 'u8', lambda r: r.choice([0, 1, 2])), ('kernel_result', 'u8', lambda r: 0)])
+    A.log_check, A.native_expect = log_check, nat
+    return A
+
+
+def arm_tag(opname):
+    def setup(h):
+        ex = h.ex
+        store_setup(h)
+        P_ = z3.Bool('tag_present')
+        h.extra_ins.update(tag_present=P_)
+        stored = Opaque('ast::value::Value', 'stored value')
+        h.by_val[stored.id] = type('X', (), {'name': 'stored'})()
+        ex.stub(r'Entity::get_tag$', lambda ex, st, c, A: [([P_], some(ex.new_cell(st, Agg('variant', PV, 'Value', [stored]), 'stored'))), ([z3.Not(P_)], none())], 'Entity::get_tag: present (a stored value) or not')
+        ex.stub(r'Entity::get$', lambda ex, st, c, A: none(), 'Entity::get (only used for an error hint)')
+        for sc in ('short_circuit_value_and_residual', 'short_circuit_residual_and_value', 'short_circuit_two_typed_residuals'):
+            ex.stub(r'::' + sc + '$', lambda ex, st, c, A: none(), f'{sc}: returns None')
+
+    def build(h):
+        return Agg('variant', EK, 'BinaryApp', [Agg('variant', 'ast::ops::BinaryOp', opname, []), h.subs['arg1'].arc, h.subs['arg2'].arc], ('op', 'arg1', 'arg2'))
+    ctor = 'get_tag' if opname == 'GetTag' else 'has_tag'
+
+    def cases(ins):
+        o1, o2, k1, k2, d, p = ins['arg1_out'], ins['arg2_out'], ins['arg1_kind'], ins['arg2_kind'], ins['deref'], ins['tag_present']
+        both = ['arg1', 'arg2']
+        vv = And(o1 == 0, o2 == 0)
+        good = And(vv, k1 == 3, k2 == 2)
+        out = [(o1 == 2, ('err_of', 'arg1'), ['arg1']), (And(o1 != 2, o2 == 2), ('err_of', 'arg2'), both),
+               (And(o1 == 0, o2 == 1), ('residual', ('binary_app', ('enum', opname), ('from_value', ('val', 'arg1')), ('res', 'arg2'))), both),
+               (And(o1 == 1, o2 == 0), ('residual', ('binary_app', ('enum', opname), ('res', 'arg1'), ('from_value', ('val', 'arg2')))), both),
+               (And(o1 == 1, o2 == 1), ('residual', ('binary_app', ('enum', opname), ('res', 'arg1'), ('res', 'arg2'))), both),
+               (And(vv, k1 != 3), ('type_error', 'entity', 'arg1'), both),
+               (And(vv, k1 == 3, k2 != 2), ('type_error', 'string', 'arg2'), both),
+               (And(good, d == 1), ('residual', (ctor, ('res', 'store'), ('val', ('opaque', 'val_arg2.0.Lit.0.String.0')))), both)]
+        if opname == 'GetTag':
+            out += [(And(good, d == 0), ('error', 'EntityDoesNotExist'), both), (And(good, d == 2, p), ('value_of', 'stored'), both),
+                    (And(good, d == 2, Not(p)), ('error', 'EntityAttrDoesNotExist'), both)]      # a missing tag is reported with the attribute error class (was_attr = false)
+        else:
+            out += [(And(good, d == 0), ('bool', False), both), (And(good, d == 2), ('bool', p), both)]
+        return out
+
+    def text(c):
+        store, partial = None, False
+        if c['arg1_out'] == 0 and c['arg1_kind'] == 3:
+            store, partial = {0: (None, False), 1: ([], True), 2: (STORE_WITH if c['tag_present'] else STORE_BARE, False)}[c['deref']]
+        a2 = operand_text(c, 'arg2')
+        if c['arg2_out'] == 0 and c['arg2_kind'] == 2:
+            a2 = '"t"'
+        meth = 'getTag' if opname == 'GetTag' else 'hasTag'
+        return f'({operand_text(c, "arg1")}).{meth}({a2})', store, partial
+    A = Arm(f'evaluator arm BinaryApp[{opname}]', pii, ['arg1', 'arg2'], build, cases, text, setup=setup, role='evaluator.rs: partial_interpret_internal BinaryApp arm (tags)',
+            extra_inputs=[('deref', 'u8', lambda r: r.choice([0, 1, 2])), ('tag_present', 'bool', lambda r: r.random() < 0.5)])
+    A.native_expect = lambda exp, c: ('long', 1) if exp == ('value_of', 'stored') else None
+    return A
+
+
+ARMS += [arm_in, (lambda: arm_tag('GetTag')), (lambda: arm_tag('HasTag'))]
